@@ -469,8 +469,16 @@ class AsyncPettingZooVecEnv(PettingZooVecEnv):
                     if (pipe is not None) and (not pipe.closed):
                         pipe.send(("close", None))
 
+                # Honour the time limit while waiting for the acknowledgements too: a worker that is
+                # still busy (e.g. after an earlier wait timed out) must not block close() beyond it
+                end_time = None if timeout is None else time.perf_counter() + timeout
                 for pipe in self.parent_pipes:
                     if (pipe is not None) and (not pipe.closed):
+                        if end_time is not None and not pipe.poll(
+                            max(end_time - time.perf_counter(), 0)
+                        ):
+                            terminate = True
+                            break
                         pipe.recv()
             except (EOFError, OSError):
                 # A worker is no longer there to acknowledge the request
